@@ -111,7 +111,8 @@ func NewRig(scratch string, n int) (*Rig, error) {
 	for _, i := range []int{3, 0, 5, 1, 4, 2} {
 		p := &scripted{rig: g, idx: fmt.Sprintf("%02d", 10*(i+1)), base: fmt.Sprintf("p%d", i), sync: make(chan struct{})}
 		p.stub, err = stub.New(p, stub.WithPluginName(p.base), stub.WithPluginIdx(p.idx),
-			stub.WithSocketPath(filepath.Join(dir, "nri.sock")))
+			stub.WithSocketPath(filepath.Join(dir, "nri.sock")),
+			stub.WithOnClose(func() {})) // the default onClose handler exits the process
 		if err != nil {
 			return nil, err
 		}
